@@ -365,7 +365,10 @@ def gen_pipe_case(rng, thorough):
     lines = ["CAP %d" % cap, "FCAP %d" % max(cap, big + 8), "DELAY %s" % rng.choice(["0", "0.0005", "0.002", "0.01", "0.05", "0.2", "0.5"]),
              "FILTER %d" % window, "FRAMES %d" % rng.randint(3, 60 if thorough else 30)]
     for s in shapes:
-        lines.append("SHAPE %d %d %d %d %d %d" % s)
+        # sometimes the camera is re-configured between the source's shape query and the exposure: the query reports the
+        # transposed shape (same byte count), the frame comes with the scripted one -- the header must carry the latter
+        flip = 1 if (not window and s[1] != s[2] and rng.random() < 0.15) else 0
+        lines.append("SHAPE %d %d %d %d %d %d %d" % (s + (flip,)))
     if rng.random() < 0.8:
         lines.append("CLIENT " + " ".join(str(rng.choice([-1, -1, 0, 1, 1, 2, 3])) for _ in range(rng.randint(0, 30))))
     lines.append("SEED %d" % rng.randint(1, 1 << 30))
